@@ -77,7 +77,7 @@ def build_history(seed, tier):
     h = histories.gen_history(st, n_ops=rc.randint(2, 8), fault_rate=0.35, threaded_rate=0.15)
     tracers = c04.TRACERS_QUICK if tier == 'quick' else c04.TRACERS_THOROUGH
     tracer = rc.choice(tracers)
-    return {'files': h['files'], 'ops': h['ops'], 'config': {'tracer': tracer, 'ref': True},
+    return {'files': h['files'], 'ops': h['ops'], 'config': {'tracer': tracer, 'ref': True, 'ambient_trace': rc.random() < 0.3},
             'meta': {'entry': 'history', 'tracer': tracer, 'seed': seed}}
 
 
@@ -166,7 +166,7 @@ def run_task(task):
 
     if task['kind'] == 'special':
         sp = progs.special_program(task['name'])
-        spec = {'files': sp['files'], 'config': {'tracer': task['tracer'], 'ref': False},
+        spec = {'files': sp['files'], 'config': {'tracer': task['tracer'], 'ref': False, 'ambient_trace': task['tracer'] != 'none'},
                 'ops': [{'op': 'run', 'noref': True}, {'op': 'run', 'code': "print('after')", 'noref': True}],
                 'meta': {'entry': 'run', 'special': task['name'], 'tracer': task['tracer']}}
         res = one(spec)
@@ -201,6 +201,8 @@ def run_task(task):
     # ---- enum
     base = c04.build_program_task({'seed': task['seed'], 'tier': task['tier']})
     base['meta'] = dict(base['meta'])
+    if task['seed'] % 3 == 0:
+        base['config'] = dict(base['config'], ambient_trace=True)
     # a second op after the faulted one shows the effect of a leak on the NEXT execution
     res = one(base)
     o = res['obs'][-1]
